@@ -9,9 +9,12 @@ EXPLANATION = (
     "component entry points (VM `component!` / Tera::render_component_to) the State is created from the Ok value of "
     "ComponentDefinition::build_context with only `filters` assigned afterwards; (REC) the component re-entry is dominated by the "
     "within-limit edge of the depth test, the child VM carries depth+1, and render_include hands the parent's depth on (so cycles "
-    "through includes stay bounded); (SAME) both entry points obtain the context from the same builder and mint the result safe. "
-    "NOT decided: argument/default/rest/type rules inside build_context and priority resolution (value-level).")
-NOT_DECIDED = "argument binding, default/rest/type checking, priority resolution (value-level logic of build_context)"
+    "through includes stay bounded); (SAME) both entry points obtain the context from the same builder and mint the result safe; (BIND) the "
+    "shape of build_context: a fresh Context that receives only each declared parameter (the provided value on the Some edge of "
+    "get_value, type-checked on that value first; the declared default only on the None edge and only when one exists; otherwise Err), the "
+    "rest map under the declared rest name, and `body`; undeclared keys go to the rest map exactly when a rest name is declared and are "
+    "otherwise recorded and rejected before anything is bound. NOT decided: what type_matches accepts, type inference, priority resolution.")
+NOT_DECIDED = "the type relation itself (type_matches / inference of parameter types), priority resolution between fallback prefixes (value-level)"
 ASSUMPTIONS = ["thread stack holds MAX_COMPONENT_RECURSION_DEPTH nested interpret frames"]
 
 
@@ -21,6 +24,7 @@ def run(ctx, rep):
         check_iso(crate, rep, cfg)
         check_rec(crate, rep, cfg)
         check_same(crate, rep, cfg)
+        check_bind(crate, rep, cfg)
 
 
 WRITERS = {
@@ -173,3 +177,174 @@ def check_same(crate, rep, cfg):
     key = "C05.SAME:result-safe"
     (rep.ok if n >= 2 else rep.bad)("C05.SAME", key, interp.where(0), "the rendered component text is pushed as a safe string at %d site(s) (not escaped a second time)" % n
                                     + ("" if n >= 2 else " — VIOLATED (floor 2)"))
+
+
+def check_bind(crate, rep, cfg):
+    """C05.BIND — the shape of ComponentDefinition::build_context: what gets into the component's context, under which edge."""
+    import rrec
+    from engine import EdgeFacts
+    from props.c03 import through, last_field
+    b = crate.one("parsing::ast::ComponentDefinition::build_context")
+    rep.analysed(b)
+    tr = Tracer(b)
+    ef = EdgeFacts(b, crate)
+    news = [bb for bb, t in b.calls() if callee_def(t).endswith("context::Context::new")]
+    inserts = [(bb, t) for bb, t in b.calls() if callee_def(t).endswith("context::Context::insert_value") or callee_def(t).endswith("context::Context::insert")]
+    getv = [(bb, t) for bb, t in b.calls() if callee_def(t) == "std::ops::Fn::call" and all(l.kind == "param" and l.detail == 3 for l in tr.operand(t["args"][0]))]
+    oks = [(bb, idx, st) for bb, idx, st in find_aggs(b, "std::result::Result", "Ok")]
+    # 1. a fresh context, returned as built
+    ok = len(news) == 1 and len(oks) == 1
+    if ok:
+        ls = tr.operand(oks[0][2]["rv"]["ops"][0])
+        ok = bool(ls) and all(l.kind == "call" and l.detail[2] == news[0] for l in ls)
+        for bb, t in inserts:
+            rl = tr.operand(t["args"][0])
+            ok = ok and bool(rl) and all(l.kind == "call" and l.detail[2] == news[0] for l in rl)
+    rep.add("C05.BIND", "C05.BIND:fresh-context", ok, b.where(news[0]) if news else b.where(0), "build_context returns the Context it created with Context::new(), and every insert goes "
+            "into that context (nothing of the caller's is copied in)" + ("" if ok else " — VIOLATED"))
+
+    def some_edges(call_bb):
+        return rrec.ok_edges_of_call(b, crate, call_bb)
+
+    def field_some_edge(field):
+        """targets of switch edges on which self.<field> (an Option) is Some"""
+        out = []
+        for sb in sorted(b.reachable):
+            if b.term(sb)["k"] != "switch":
+                continue
+            st_ = b.term(sb)
+            d_ = ef.single_def(st_["op"]["pl"]["l"]) if st_["op"]["k"] != "const" and not st_["op"]["pl"]["p"] else None
+            on_field = bool(d_) and d_[3]["k"] == "discr" and any(("." + field) in l.projs for l in tr.place(d_[3]["pl"]))
+            for tgt, fl in ef.facts_for_switch(sb).items():
+                for f in fl:
+                    if f[0] == "variant" and f[1] == "std::option::Option" and f[3] == frozenset({"Some"}) and f[4] and (field in f[2] or on_field):
+                        out.append((sb, tgt))
+                    if f[0] == "call" and f[1].endswith("::is_some") and f[3] is True:
+                        ct = b.term(f[4])
+                        if any(last_field(l.projs) == "." + field for l in tr.operand(ct["args"][0])):
+                            out.append((sb, tgt))
+        return out
+    # classify the inserts by their key
+    kinds = {}
+    for bb, t in inserts:
+        kl = tr.operand(t["args"][1])
+        k = None
+        if t["args"][1]["k"] == "const" and t["args"][1].get("s") == "body" or any(l.kind == "const" and l.detail[1] == "body" for l in kl):
+            k = "body"
+        elif kl and all(l.kind == "param" and l.detail == 1 and ".rest_param_name" in l.projs for l in kl):
+            k = "rest"
+        elif kl and all(l.kind == "call" and l.detail[0].endswith("Iterator::next") for l in kl):
+            k = "declared"
+        kinds.setdefault(k, []).append((bb, t))
+    extra = kinds.get(None, [])
+    ok = not extra and len(kinds.get("declared", [])) == 2 and len(kinds.get("rest", [])) == 1 and len(kinds.get("body", [])) == 1
+    rep.add("C05.BIND", "C05.BIND:only-declared-rest-body", ok, b.where(extra[0][0]) if extra else b.where(0), "the context receives only: each declared parameter (provided value / "
+            "default), the rest map under the declared rest name, and `body` — %s" % {str(k): len(v) for k, v in kinds.items()} + ("" if ok else " — VIOLATED"))
+    if not ok or len(getv) != 2:
+        if len(getv) != 2:
+            rep.anchor_missing("C05.BIND", "the two get_value(key) calls of build_context (found %d)" % len(getv))
+        return
+    # the get_value call of the second loop is the one whose key comes from the kwargs iteration that also feeds the declared inserts
+    dec = kinds["declared"]
+    gv2 = [x for x in getv if any(b.dominates(x[0], d[0]) for d in dec)]
+    gv1 = [x for x in getv if x not in gv2]
+    ok = len(gv2) == 1 and len(gv1) == 1
+    if not ok:
+        rep.anchor_missing("C05.BIND", "get_value call dominating the declared-parameter inserts")
+        return
+    g2 = gv2[0][0]
+    se = some_edges(g2)
+    prov = [d for d in dec if any(b.dominates(tgt, d[0]) for sb, tgt in se)]
+    dflt = [d for d in dec if d not in prov]
+    # 2. provided value wins, and is the value get_value returned
+    ok = len(prov) == 1 and len(dflt) == 1
+    if ok:
+        vl = tr.operand(prov[0][1]["args"][2])
+        ok = bool(vl) and all(l.kind == "call" and l.detail[2] == g2 for l in vl)
+    rep.add("C05.BIND", "C05.BIND:provided-value-bound", ok, b.where(prov[0][0]) if prov else b.where(0), "on the Some edge of get_value(key) the declared parameter is bound to that "
+            "very value" + ("" if ok else " — VIOLATED"))
+    # 3. type check before binding a provided value, on the same value, mismatch -> Err
+    tm = [(bb, t) for bb, t in b.calls() if callee_def(t).endswith("ComponentArgument::type_matches")]
+    ok = len(tm) == 1 and bool(prov)
+    if ok:
+        tb = tm[0][0]
+        ok = any(b.dominates(tgt, tb) for sb, tgt in se)
+        vl = tr.operand(tm[0][1]["args"][1])
+        ok = ok and bool(vl) and all(l.kind == "call" and l.detail[2] == g2 for l in vl)
+        true_t = [tgt for sb in sorted(b.reachable) if b.term(sb)["k"] == "switch" for tgt, fl in ef.facts_for_switch(sb).items() for f in fl
+                  if f[0] == "call" and f[4] == tb and f[3] is True]
+        false_t = [tgt for sb in sorted(b.reachable) if b.term(sb)["k"] == "switch" for tgt, fl in ef.facts_for_switch(sb).items() for f in fl
+                   if f[0] == "call" and f[4] == tb and f[3] is False]
+        ok = ok and any(b.dominates(tt, prov[0][0]) for tt in true_t)
+        # the mismatch edge cannot reach any insert nor the Ok
+        for ft in false_t:
+            r = b.reach_from(ft)
+            if any(x[0] in r for x in inserts) or oks[0][0] in r:
+                ok = False
+    rep.add("C05.BIND", "C05.BIND:type-checked-before-bound", ok, b.where(tm[0][0]) if tm else b.where(0), "a provided value is bound only on the true edge of "
+            "`arg_def.type_matches(&value)` evaluated on that value; the mismatch edge ends in Err" + ("" if ok else " — VIOLATED"))
+    # 4. default only when nothing was provided; no default -> Err
+    ok = bool(dflt)
+    if ok:
+        d = dflt[0]
+        none_ok = not any(b.dominates(tgt, d[0]) for sb, tgt in se) and b.dominates(g2, d[0])
+        vl = tr.operand(d[1]["args"][2])
+        from_default = bool(vl) and all(".default" in l.projs for l in vl)
+        ds = field_some_edge("default")
+        under_some = any(b.dominates(tgt, d[0]) for sb, tgt in ds)
+        ok = none_ok and from_default and under_some
+        # the edge "nothing provided and no default" reaches neither an insert of this loop iteration's key nor Ok without an Err aggregate: it returns Err
+        errs = {bb for bb, idx, st in find_aggs(b, "std::result::Result", "Err")}
+        for sb, tgt in ds:
+            others = [x for x in b.succ[sb] if x != tgt]
+            for o in others:
+                r = b.reach_from(o, removed_blocks=frozenset(errs))
+                if oks[0][0] in r or any(x[0] in r for x in inserts):
+                    ok = False
+    rep.add("C05.BIND", "C05.BIND:default-only-when-missing", ok, b.where(dflt[0][0]) if dflt else b.where(0), "the declared default is bound only on the None edge of get_value(key), "
+            "only when a default exists, and a missing argument without default can only end in Err" + ("" if ok else " — VIOLATED"))
+    # 5. undeclared keys: collected into the rest map when a rest name is declared, else remembered and rejected before anything is bound
+    ck = [(bb, t) for bb, t in b.calls() if callee_def(t).endswith("::contains_key") and any(".kwargs" in l.projs for l in tr.operand(t["args"][0]))]
+    rest_ins = [(bb, t) for bb, t in b.calls() if callee_def(t).endswith("::insert") and "context::Context" not in callee_def(t)
+                and any("Key" in a for a in t["atys"][1:2])]
+    unk_ins = [(bb, t) for bb, t in b.calls() if callee_def(t).endswith("HashSet::<T, S, A>::insert")]
+    ok = len(ck) == 1 and len(rest_ins) == 1 and len(unk_ins) == 1
+    if ok:
+        cb = ck[0][0]
+        f_t = [tgt for sb in sorted(b.reachable) if b.term(sb)["k"] == "switch" for tgt, fl in ef.facts_for_switch(sb).items() for f in fl
+               if f[0] == "call" and f[4] == cb and f[3] is False]
+        ok = bool(f_t) and all(any(b.dominates(ft, x[0]) for ft in f_t) for x in (rest_ins[0], unk_ins[0]))
+        rs = field_some_edge("rest_param_name")
+        ok = ok and any(b.dominates(tgt, rest_ins[0][0]) for sb, tgt in rs) and not any(b.dominates(tgt, unk_ins[0][0]) for sb, tgt in rs)
+        # the value collected is get_value(key) of the first loop
+        vl = tr.operand(rest_ins[0][1]["args"][2])
+        ok = ok and bool(vl) and all(l.kind == "call" and l.detail[2] == gv1[0][0] for l in vl)
+        # the map bound under the rest name is the one collected into
+        rl = {(l.kind, l.detail) for l in tr.operand(rest_ins[0][1]["args"][0])}
+        bl = {(l.kind, l.detail) for l in through(tr, tr.operand(kinds["rest"][0][1]["args"][2]))}
+        ok = ok and bool(rl) and rl <= bl | rl and bool(bl & rl)
+    rep.add("C05.BIND", "C05.BIND:undeclared-to-rest-or-remembered", ok, b.where(ck[0][0]) if ck else b.where(0), "a provided key that is not declared is inserted into the rest map "
+            "(with its value) exactly when a rest name is declared, and otherwise recorded as unknown; the rest map bound at the end is that map" + ("" if ok else " — VIOLATED"))
+    ie = [(bb, t) for bb, t in b.calls() if callee_def(t).endswith("HashSet::<T, S, A>::is_empty")]
+    ok = len(ie) == 1
+    if ok:
+        # on the edge "unknown keys not empty" neither an insert into the context nor the Ok is reachable; and that test dominates the second loop
+        ne = [tgt for sb in sorted(b.reachable) if b.term(sb)["k"] == "switch" for tgt, fl in ef.facts_for_switch(sb).items() for f in fl
+              if f[0] == "call" and f[4] == ie[0][0] and f[3] is False]
+        ok = bool(ne) and b.dominates(ie[0][0], g2)
+        for t0 in ne:
+            r = b.reach_from(t0)
+            if oks[0][0] in r or any(x[0] in r for x in inserts):
+                ok = False
+    rep.add("C05.BIND", "C05.BIND:unknown-rejected", ok, b.where(ie[0][0]) if ie else b.where(0), "when undeclared arguments were recorded the function can only return Err, and that "
+            "test comes before any parameter is bound" + ("" if ok else " — VIOLATED"))
+    # 6. rest / body under their Some edges
+    rs = field_some_edge("rest_param_name")
+    ok = any(b.dominates(tgt, kinds["rest"][0][0]) for sb, tgt in rs)
+    bodyp = [sb_t for sb_t in [(sb, tgt) for sb in sorted(b.reachable) if b.term(sb)["k"] == "switch" for tgt, fl in ef.facts_for_switch(sb).items() for f in fl
+                               if f[0] == "variant" and f[1] == "std::option::Option" and f[3] == frozenset({"Some"}) and f[4] and f[2].startswith("_4")]]
+    ok = ok and any(b.dominates(tgt, kinds["body"][0][0]) for sb, tgt in bodyp)
+    vl = tr.operand(kinds["body"][0][1]["args"][2])
+    ok = ok and bool(vl) and all(l.kind == "param" and l.detail == 4 for l in vl)
+    rep.add("C05.BIND", "C05.BIND:rest-and-body-when-present", ok, b.where(kinds["rest"][0][0]), "the rest map is bound only when a rest name is declared; `body` is bound only when a "
+            "body was passed and is that body" + ("" if ok else " — VIOLATED"))
